@@ -5,4 +5,20 @@ CHECKS = {
         "text": "Kernel-checked theorem: whenever the model of EWD returns, its verdict is exact (q-reduced form + Dhar's burn + uniqueness argument); the model is tied to the code by running both on generated multigraphs/divisors in both modes and diffing verdicts.",
         "note": "Trusted: Lean kernel, axioms propext/Classical.choice/Quot.sound, fidelity of the hand-written model (checked differentially on this run's inputs only), harness canonicalisation.",
     },
+    "C05": {
+        "text": "Kernel-checked theorems on the move model: lend = D - L e_v, borrow its inverse, set-fire = sequential lends in any order, fire-all = identity, commutation, and conservation of the degree sum (= the constructor's cached total) over every history including refused requests; tie: generated lend/borrow/set_fire/transfer histories through CFDivisor and CFConfig, all degrees + cached total + is_effective diffed after every step.",
+        "note": "Trusted: Lean kernel + standard axioms; model fidelity is checked differentially only on this run's histories (length <= 25 quick / 100 thorough, n <= 6).",
+    },
+    "C06": {
+        "text": "Kernel-checked theorems: Laplacian entries (symmetric, zero row sums, valence diagonal, minus multiplicity off it), apply = D - L s in unbounded Int, additive, equal to any interleaving of the scripted single moves; tie: matrices, reduced matrices, incremental script histories, apply results with entries up to 2^70 incl. type tags and JSON acceptance.",
+        "note": "The *type* of returned numbers (plain int vs numpy scalar) and JSON acceptance are runtime facts: compared by the correspondence (model always answers plain int / accepted), not proved.",
+    },
+    "C12": {
+        "text": "Kernel-checked theorems: +, -, neg, integer scaling act vertex-wise, abelian group laws, Z-action laws, additive cached totals, chip = unit, unit decomposition, == iff same vertex set & chips & multigraph, mismatched vertex sets refused; tie: generated pairs/triples with magnitudes to 2^70 on same object / equal copy / other edges / other vertex set, operand digests afterwards.",
+        "note": "Operand immutability is a store fact: the model is purely functional, the code's behaviour is observed through operand digests after every expression.",
+    },
+    "C13": {
+        "text": "Kernel-checked invariant by induction over arbitrary operation histories: adjacency symmetric and loopless, cached valence = row sum, 2*edge total = sum of valences, genus formula, refusals (loop, non-positive, unknown) leave the graph unchanged, add_edges = its accepted prefix, remove_vertex well-formed and pure; tie: generated valid/invalid histories with full cache digests after every step.",
+        "note": "Equality 'remove_vertex = induced multigraph' is tied by correspondence (renumbered digest compared); the theorem proves well-formedness of the rebuilt graph and purity.",
+    },
 }
